@@ -52,6 +52,55 @@ MUTANTS = [
                         (insn.name.ctx_start, insn.name.ctx_end, f"Instruction '{insn.name.name}' can only jump from""", """                    reports.warning(
                         "branch-out-of-bounds",
                         (insn.name.ctx_start, insn.name.ctx_end, f"Instruction '{insn.name.name}' can only jump from"""),
+    ("C08", "new-assert-in-insn", "pdpy11/insns.py", """        replacements = []
+        operands_encoding = b\"\"
+""", """        assert not any(isinstance(o, operators.postsub) for o in insn.operands)
+        replacements = []
+        operands_encoding = b\"\"
+"""),
+    ("C08", "silent-failure", "pdpy11/reports.py", """    handler = handle_reports.handlers_stack[-1]
+    handler(priority, identifier, *reports)
+""", """    handler = handle_reports.handlers_stack[-1]
+    if identifier != "odd-branch":
+        handler(priority, identifier, *reports)
+"""),
+    ("C08", "keyerror-on-unknown-escape", "pdpy11/parser.py", """    elif char in "\\\\\\"'/":
+        return char""", """    elif char in "\\\\\\"'/":
+        return {"\\\\": "\\\\", "\\"": "\\"", "'": "'"}[char]"""),
+    ("C08", "fixup-loop", "pdpy11/types.py", """        for name in candidates:
+            if name in compiler.symbols:
+                return compiler.symbols[name]
+""", """        for name in candidates:
+            while name in compiler.symbols and self.name.lower() == "zed" and state.get("context") == "repeat":
+                pass
+            if name in compiler.symbols:
+                return compiler.symbols[name]
+"""),
+    ("C18", "depth-not-restored-on-exception", "pdpy11/deferred.py", """    def __exit__(self, exc_type, exc_value, exc_tb):
+        self.depth -= 1
+        return exc_type is NotReadyError""", """    def __exit__(self, exc_type, exc_value, exc_tb):
+        if exc_type is None or exc_type is NotReadyError:
+            self.depth -= 1
+        return exc_type is NotReadyError"""),
+    ("C18", "handler-popped-after-raise", "pdpy11/reports.py", """    def __exit__(self, exc_type, exc_value, exc_tb):
+        assert self.handlers_stack.pop() is self
+
+        if hasattr(self.obj, "__exit__"):""", """    def __exit__(self, exc_type, exc_value, exc_tb):
+        if exc_type is None or exc_type is UnrecoverableError:
+            assert self.handlers_stack.pop() is self
+
+        if hasattr(self.obj, "__exit__"):"""),
+    ("C18", "set-iteration-order", "pdpy11/compiler.py", """        for _, (_, value) in self.symbols.items():
+            wait(value)""", """        for _, (_, value) in sorted(self.symbols.items(), key=lambda kv: hash(kv[0])):
+            wait(value)"""),
+    ("C18", "cached-link-base-across-runs", "pdpy11/compiler.py", """        if not link_base["promise"].settled:
+            link_base["promise"].settle(0o1000)
+
+        base, code""", """        if not link_base["promise"].settled:
+            link_base["promise"].settle(getattr(Compiler, "last_base", 0o1000))
+        Compiler.last_base = wait(link_base["promise"])
+
+        base, code"""),
     ("C13", "bit-order-msb-first", "pdpy11/bk_wav.py", "(byte >> i) & 1", "(byte >> (7 - i)) & 1"),
     ("C13", "checksum-mod-65536", "pdpy11/bk_wav.py", "            result -= 0xffff\n", "            result -= 0x10000\n"),
     ("C13", "name-padded-with-nul", "pdpy11/metacommands.py", 'encoded_bk_filename.ljust(16, b" ")', 'encoded_bk_filename.ljust(16, b"\\0")'),
